@@ -14,7 +14,7 @@ RULE = ("a case = one malformed-but-checksum-valid response frame (or a mix of s
         "device returns as the answer to every command of refresh(), apply(), get_capabilities(), toggle_display() and start_self_clean(). "
         "The client is fresh or has learned a full capability profile first. Families: every valid response kind with its body truncated to every shorter length (incl. the empty body and the empty frame, "
         "checks recomputed), raw frame truncations with the last byte fixed up, every count/size byte set to every value 0..255, every "
-        "response id 0..255 x frame types {2,3,4,5,6,0xA0} with random bodies, mixes [bad.., good, bad..]. Oracle: no exception escapes any "
+        "response id 0..255 x frame types {2,3,4,5,6,0xA0} with random bodies, mixes [bad.., good, bad..] for state reports, for capability replies (one page, or two pages with the junk around the additional page) and for property reports (one or two decodable reports among undecodable property frames); a one-record capability profile with any value learned first and state reports with unusual fan/mode/swing values afterwards. Oracle: no exception escapes any "
         "of the five operations; in a mix the good frame's state (reference decode) is visible afterwards. distinct = distinct frame bytes "
         "x operation; non-trivial = the frame passes the outer checksum (so it reaches the parsers)")
 ASSUMPTIONS = ["frames are delivered inside authentic V2 packets (transport-level malformation is C09's business)",
@@ -165,19 +165,62 @@ def generate(ctx, rng):
         before = [rng.choice(unsol + noncaps) for _ in range(rng.randint(1, 3))]
         after = [rng.choice(unsol + noncaps) for _ in range(rng.randint(0, 2))]
         # a later *well-formed* capabilities response would legitimately not be merged; keep only non-capability classes after
-        yield ("capsmix", j), {"kind": "capsmix", "before": before, "after": after}
+        yield ("capsmix", j), {"kind": "capsmix", "before": before, "after": after, "split": [None, 0, 3, 6, len(c13.CAPS1)][j % 5]}
+    # a decodable properties response next to undecodable property frames (and a second decodable one) in the same exchange
+    # malformed property frames that never mention the two swing-angle ids (a frame that decodably reports them would
+    # legitimately decide the outcome)
+    obody = acprops.build_report(0xB1, [(0x0039, 0, b"\x01"), (0x0042, 0, b"\x02"), (0x00E3, 0, b"\x01\x01"), (0x0018, 0, b"\x01")])
+    badprops = [_rebuild(obody[:k], acframe.FT_QUERY, chk) for k in range(len(obody)) for chk in ("crc", "sum")]
+    for v in (0, 5, 9, 64, 255):
+        b = bytearray(obody)
+        b[1] = v
+        badprops.append(_rebuild(bytes(b)))
+    for pid in (0x0039, 0x0042, 0x0018, 0x00E3, 0x001A, 0x0043, 0x0048, 0x7777):
+        for have in range(0, 3):
+            for claimed in (3, 13, 255):
+                badprops.append(_rebuild(bytes([rng.choice([0xB1, 0xB0]), 1, pid & 0xFF, pid >> 8, 0x00, claimed]) + bytes(range(1, 1 + have))))
+    badprops += [_rebuild(b"\xb1"), _rebuild(b"\xb0"), _rebuild(b"\xb1\x03"), _rebuild(b"\xb1\x01\x39")]
+    for j in range(150 if ctx.tier == "quick" else 4000):
+        yield ("propsmix", j), {"kind": "propsmix", "ud": rng.choice([0, 1, 25, 50, 75, 100]), "lr": rng.choice([0, 1, 25, 50, 75, 100]),
+                                "before": [rng.choice(badprops) for _ in range(rng.randint(0, 2))],
+                                "after": [rng.choice(badprops) for _ in range(rng.randint(0, 3))], "one_frame": j % 2 == 0}
+    # a capability profile with one record carrying any value, learned first; then state reports with unusual field values
+    cids = (0x0009, 0x000A, 0x0018, 0x0030, 0x0032, 0x0033, 0x0039, 0x0040, 0x0042, 0x0043, 0x0048, 0x004B, 0x00E3, 0x0210, 0x0212,
+            0x0213, 0x0214, 0x0215, 0x0216, 0x0217, 0x0219, 0x021A, 0x021E, 0x021F, 0x0221, 0x0222, 0x0224, 0x0225, 0x022C)
+    seqs = []
+    for cid in cids:
+        for v in (range(256) if ctx.tier != "quick" else sorted(set(list(range(0, 12)) + [100, 127, 128, 255] + rng.sample(range(256), 8)))):
+            seqs.append((cid, v))
+    for i in range(0, len(seqs), 24):
+        yield ("caps-then-state", i), {"kind": "caps-then-state", "records": seqs[i:i + 24], "sseed": rng.getrandbits(32)}
 
 
 def _capsmix(ctx, case):
     """Unsolicited / malformed frames around a genuine capabilities response: result must equal the genuine response alone."""
-    good = acframe.build(acprops.build_caps(c13.CAPS1, False), acframe.FT_QUERY)
+    split = case.get("split")
+    if split is None:
+        pages = [acframe.build(acprops.build_caps(c13.CAPS1, False), acframe.FT_QUERY)]
+    else:
+        # the profile arrives in two pages; the junk surrounds the additional page in the second exchange
+        pages = [acframe.build(acprops.build_caps(c13.CAPS1[:split], True), acframe.FT_QUERY),
+                 acframe.build(acprops.build_caps(c13.CAPS1[split:], False), acframe.FT_QUERY)]
     junk_b = [bytes(f) for f in case["before"]]
     junk_a = [bytes(f) for f in case["after"]]
     snaps = []
-    for frames in ([good], junk_b + [good] + junk_a):
+    for junk in (False, True):
         net = H.new_net()
         dev = SimDevice(net, version=2, device_id=0x97)
-        dev.on_exchange = lambda conn, req, packets, meta, frames=frames: [(0, dev.wrap(conn, f)) for f in frames]
+        nx = {"n": 0}
+
+        def on_exchange(conn, req, packets, meta, junk=junk, nx=nx):
+            page = pages[min(nx["n"], len(pages) - 1)]
+            last = nx["n"] >= len(pages) - 1
+            nx["n"] += 1
+            frames = (junk_b + [page] + junk_a) if (junk and last) else [page]
+            return [(0, dev.wrap(conn, f)) for f in frames]
+
+        dev.on_exchange = on_exchange
+        frames = (junk, split)
 
         async def go(loop):
             ac = AC(ip=dev.host, port=dev.port, device_id=dev.device_id)
@@ -221,7 +264,99 @@ def _frames_small(rng):
     return fr[:400]
 
 
+def _propsmix(ctx, case):
+    """Decodable property reports among undecodable property frames in one exchange, on a client that knows the features."""
+    caps = acframe.build(acprops.build_caps([(0x0009, b"\x01"), (0x000A, b"\x01"), (0x0214, b"\x01")], False), acframe.FT_QUERY)
+    state = acframe.build(acstate.encode_0xC0(acstate.default_state(), 23), acframe.FT_QUERY)
+    if case["one_frame"]:
+        good = [acframe.build(acprops.build_report(0xB1, [(0x0009, 0, bytes([case["ud"]])), (0x000A, 0, bytes([case["lr"]]))]), acframe.FT_QUERY)]
+    else:
+        good = [acframe.build(acprops.build_report(0xB1, [(0x0009, 0, bytes([case["ud"]]))]), acframe.FT_QUERY),
+                acframe.build(acprops.build_report(0xB1, [(0x000A, 0, bytes([case["lr"]]))]), acframe.FT_QUERY)]
+    bad_b, bad_a = [bytes(f) for f in case["before"]], [bytes(f) for f in case["after"]]
+    net = H.new_net()
+    dev = SimDevice(net, version=2, device_id=0x96)
+    cur = {"frames": [caps]}
+    dev.on_exchange = lambda conn, req, packets, meta: [(0, dev.wrap(conn, f)) for f in cur["frames"]]
+
+    async def go(loop):
+        ac = AC(ip=dev.host, port=dev.port, device_id=dev.device_id)
+        await ac.get_capabilities()
+        if len(good) == 2:
+            cur["frames"] = [state] + bad_b + [good[0]] + bad_a[:1] + [good[1]] + bad_a[1:]
+        else:
+            cur["frames"] = [state] + bad_b + good + bad_a
+        await ac.refresh()
+        return ac.supports_vertical_swing_angle, ac.supports_horizontal_swing_angle, int(ac.vertical_swing_angle), int(ac.horizontal_swing_angle)
+
+    key = ("propsmix", case["ud"], case["lr"], tuple(bad_b), tuple(bad_a), case["one_frame"])
+    try:
+        (sv, sh, ud, lr), loop = H.run_virtual(go, net)
+    except Exception as e:  # noqa: BLE001
+        ctx.count(key, kind="propsmix-raised")
+        ctx.violation(f"{type(e).__name__}/propsmix", f"refresh raised {type(e).__name__}: {e} with malformed property frames around a good one", case)
+        return
+    if not (sv and sh):
+        ctx.inconclusive_because("propsmix: the client did not learn the swing-angle capabilities; oracle vacuous")
+        return
+    if (ud, lr) != (case["ud"], case["lr"]):
+        ctx.count(key, kind="propsmix-lost")
+        ctx.violation("good-props-not-applied", f"decodable property report(s) in a mixed exchange not applied: angles read ({ud}, {lr}), reported "
+                      f"({case['ud']}, {case['lr']})", case)
+    else:
+        ctx.count(key, kind="mix-good-applied", sample={"bad_before": len(bad_b), "bad_after": len(bad_a), "frames_with_good_reports": len(good)})
+
+
+def _caps_then_state(ctx, case):
+    """get_capabilities() answered with a one-record profile carrying any value; afterwards state reports with unusual values
+    answer refresh/apply/toggle/self-clean on the same object."""
+    import random
+    r = random.Random(case["sseed"])
+    net = H.new_net()
+    dev = SimDevice(net, version=2, device_id=0x95)
+    cur = {"frames": []}
+    dev.on_exchange = lambda conn, req, packets, meta: [(0, dev.wrap(conn, f)) for f in cur["frames"]]
+    out = []
+
+    def odd_state():
+        st = {**acstate.default_state(), "power": r.random() < 0.5, "target_temperature": r.choice([16.0, 17.0, 30.0, 13.0, 43.5]),
+              "target_humidity": r.choice([0, 35, 100])}
+        ov = {3: r.choice([0, 1, 19, 30, 41, 99, 101, 103, 127]), 2: (r.randrange(8) << 5) | r.randrange(32), 7: r.choice([0, 1, 2, 5, 0xA, 0xF, 0x3C])}
+        return acframe.build(acstate.encode_0xC0(st, r.choice([19, 23, 24]), ov), acframe.FT_QUERY)
+
+    async def go(loop):
+        for cid, v in case["records"]:
+            ac = AC(ip=dev.host, port=dev.port, device_id=dev.device_id)
+            val = bytes([v] * 7) if cid == 0x0225 else bytes([v])
+            cur["frames"] = [acframe.build(acprops.build_caps([(cid, val)], False), acframe.FT_QUERY)]
+            try:
+                await ac.get_capabilities()
+            except Exception as e:  # noqa: BLE001
+                out.append((cid, v, "caps", e))
+                continue
+            for op in ("refresh", "apply", "toggle", "refresh"):
+                cur["frames"] = [odd_state()]
+                try:
+                    await _do(ac, op)
+                    out.append((cid, v, op, None))
+                except Exception as e:  # noqa: BLE001
+                    out.append((cid, v, op, e))
+                    break
+
+    H.run_virtual(go, net)
+    for cid, v, op, exc in out:
+        ctx.count(("caps-then-state", cid, v, op, case["sseed"]), kind=f"capability-0x{cid:04x}-then-unusual-state" if cid in (0x0210, 0x0214) else "capability-then-unusual-state",
+                  sample={"capability": hex(cid), "value": v, "op": op} if cid == 0x0210 else None)
+        if exc is not None:
+            ctx.violation(f"{type(exc).__name__}/caps-then-state", f"{op} raised {type(exc).__name__}: {exc} after learning capability 0x{cid:04x}={v} "
+                          "and receiving a state report with unusual values", {**case, "records": [(cid, v)]})
+
+
 def run_case(ctx, case):
+    if case["kind"] == "propsmix":
+        return _propsmix(ctx, case)
+    if case["kind"] == "caps-then-state":
+        return _caps_then_state(ctx, case)
     if case["kind"] == "mix":
         return _mix(ctx, case)
     if case["kind"] == "capsmix":
